@@ -21,7 +21,7 @@ func hasHeader(hs []Header, name, value string) bool {
 	return false
 }
 
-var c16ct = []string{"text/plain", "application/x-www-form-urlencoded", "application/octet-stream", ""}
+var c16ct = []string{"text/plain", "application/x-www-form-urlencoded", "application/octet-stream", "", "multipart/form-data; boundary=b"}
 
 // VerifC16Request: the HAR request entry describes the request; post data is
 // the body as the origin receives it (un-chunked, not content-decoded),
@@ -32,7 +32,8 @@ func VerifC16Request() {
 	var wire []byte
 	var k, v string
 	form := ct == "application/x-www-form-urlencoded"
-	if form {
+	multi := strings.HasPrefix(ct, "multipart/")
+	if form || multi {
 		// k=v with symbolic unreserved characters
 		k, v = vf.String("form-key", 1), vf.String("form-value", vf.Choice("form-value-len", 3))
 		for _, s := range []string{k, v} {
@@ -42,13 +43,16 @@ func VerifC16Request() {
 			}
 		}
 		wire = []byte(k + "=" + v)
+		if multi {
+			wire = []byte("--b\r\nContent-Disposition: form-data; name=\"" + k + "\"; filename=\"n.txt\"\r\nContent-Type: text/x-v\r\n\r\n" + v + "\r\n--b--\r\n")
+		}
 	} else {
 		wire = vf.Bytes("body", vf.Choice("body-len", vf.Param("bodylens")))
 	}
 	// a request body may carry a content coding; the origin receives it still coded, so that
 	// is what the post data must show (coded properly, or merely labelled as such)
 	enc := ""
-	if !form {
+	if !form && !multi {
 		switch vf.Choice("request-content-encoding", 4) {
 		case 1:
 			enc, wire = "gzip", vf.Enc("gzip", wire)
@@ -89,10 +93,13 @@ func VerifC16Request() {
 		if hr.PostData != nil {
 			if !withBody {
 				vf.Assert(hr.PostData.Text == "" && len(hr.PostData.Params) == 0, "capture-off-no-content")
-			} else if form {
+			} else if form || multi {
 				vf.Assert(len(hr.PostData.Params) == 1, "form-body-parsed-into-parameters")
 				if len(hr.PostData.Params) == 1 {
 					vf.Assert(hr.PostData.Params[0].Name == k && hr.PostData.Params[0].Value == v, "form-parameter")
+					if multi {
+						vf.Assert(hr.PostData.Params[0].Filename == "n.txt" && hr.PostData.Params[0].ContentType == "text/x-v", "multipart-parameter-file-name-and-type")
+					}
 				}
 				vf.Reach("form")
 			} else {
@@ -188,6 +195,45 @@ func VerifC16JSON() {
 		vf.Assert(bytes.Equal(cb.Text, c.Text) || (len(cb.Text) == 0 && len(c.Text) == 0), "content-text-preserved-exactly")
 	}
 	vf.Assert(cb.Size == c.Size && cb.MimeType == c.MimeType && cb.Encoding == c.Encoding, "content-fields-preserved")
+	vf.Reach("done")
+}
+
+// VerifC16EntryRoundTrip: entries as the logger builds them (NewRequest /
+// NewResponse with capture on) survive Marshal -> Unmarshal with their bodies
+// preserved exactly, for short bodies over the byte alphabet and for long ones
+// (a 510..512 byte ASCII prefix followed by two alphabet bytes, so that any
+// sniffing of a leading window sees only text).
+func VerifC16EntryRoundTrip() {
+	var body []byte
+	if vf.Choice("long-body", 2) == 1 {
+		body = bytes.Repeat([]byte("a"), 510+vf.Choice("prefix", 3))
+	}
+	for i, n := 0, vf.Choice("tail-len", 3); i < n; i++ {
+		body = append(body, alphabet[vf.Choice("byte", len(alphabet))])
+	}
+	ct := []string{"text/html", "image/png"}[vf.Choice("content-type", 2)]
+	req, _ := msg.NewRequest(msg.Spec{Wire: body, ContentType: ct})
+	res, _ := msg.NewResponse(msg.Spec{Wire: body, ContentType: ct}, req)
+	hq, err := NewRequest(req, true)
+	vf.Assert(err == nil, "request-entry-built")
+	hs, err2 := NewResponse(res, true)
+	vf.Assert(err2 == nil, "response-entry-built")
+	if err != nil || err2 != nil {
+		return
+	}
+	js, merr := json.Marshal(&Entry{Request: hq, Response: hs})
+	vf.Assert(merr == nil, "entry-marshals")
+	var back Entry
+	vf.Assert(json.Unmarshal(js, &back) == nil, "entry-unmarshals")
+	if back.Response == nil || back.Response.Content == nil || back.Request == nil {
+		vf.Fail("entry-round-trip-keeps-request-and-response")
+		return
+	}
+	vf.Assert(bytes.Equal(back.Response.Content.Text, body) || (len(body) == 0 && len(back.Response.Content.Text) == 0), "response-content-preserved-exactly")
+	vf.Assert(back.Response.Content.Size == int64(len(body)), "response-content-size-is-the-true-size")
+	if len(body) > 0 {
+		vf.Assert(back.Request.PostData != nil && back.Request.PostData.Text == string(body), "request-post-data-preserved-exactly")
+	}
 	vf.Reach("done")
 }
 
